@@ -57,11 +57,11 @@ func (nb *nativeBuild) overlayFiles() map[string]string {
 	m := map[string]string{}
 	hs, _ := filepath.Glob(filepath.Join(nb.root, "harness", "verifh", "*.go"))
 	for _, f := range hs {
-		m[filepath.Join("/repo/internal/verifh", filepath.Base(f))] = f
+		m[filepath.Join(repoDir(), "internal/verifh", filepath.Base(f))] = f
 	}
 	rs, _ := filepath.Glob(filepath.Join(nb.root, "harness", "verifrt_native", "*.go"))
 	for _, f := range rs {
-		m[filepath.Join("/repo/internal/verifrt", filepath.Base(f))] = f
+		m[filepath.Join(repoDir(), "internal/verifrt", filepath.Base(f))] = f
 	}
 	return m
 }
@@ -84,7 +84,7 @@ func (nb *nativeBuild) build() error {
 		drv := filepath.Join(dir, "zz_replay_test.go")
 		os.WriteFile(drv, []byte(sb.String()), 0o644)
 		ov := nb.overlayFiles()
-		ov["/repo/internal/verifh/zz_replay_test.go"] = drv
+		ov[filepath.Join(repoDir(), "internal/verifh/zz_replay_test.go")] = drv
 		b, _ := json.Marshal(map[string]any{"Replace": ov})
 		ovf := filepath.Join(dir, "overlay.json")
 		os.WriteFile(ovf, b, 0o644)
@@ -95,7 +95,7 @@ func (nb *nativeBuild) build() error {
 		}
 		args = append(args, "./internal/verifh")
 		cmd := exec.Command("go", args...)
-		cmd.Dir = "/repo"
+		cmd.Dir = repoDir()
 		cmd.Env = append(os.Environ(), "GOFLAGS=-mod=mod", "GOPROXY=off", "GOSUMDB=off", "GOTOOLCHAIN=local")
 		out, err := cmd.CombinedOutput()
 		if err != nil {
